@@ -144,7 +144,7 @@ func init() {
 			return nil
 		},
 		Cases:   defCases(4000, 100000),
-		Timeout: defDur(5*time.Second, 30*time.Second),
+		Timeout: defDur(10*time.Second, 90*time.Second),
 		Wall:    defDur(50*time.Second, 12*time.Minute),
 	})
 }
